@@ -17,7 +17,7 @@ V = [
     "*e* **s**", "`c`", "[l](/u)", "![i](/s)", "<http://x.y>", "&amp; &#0; &#xD800;", "&#35;",
     ">\t- x", "-\t\tx", "  \tfoo", "x\x00y", "a\rb", "é  z",
     "[", "![", "](", "[[[[", "****a", "__a__b_", "~~s~~", "1986. x", "\\# n",
-    " ```", "\t2. y", "   16. b", "² x",
+    " ```", "\t2. y", "   16. b", "². x",
 ]
 assert len(V) == len(set(V)), "duplicate line shapes"
 
@@ -62,7 +62,7 @@ def inline_docs(k: int, frags=None):
             yield "".join(parts)
 
 
-EMPH_ALPHABET = ["*", "**", "_", "~~", "~", "a", " ", "[", "](x)", "b"]
+EMPH_ALPHABET = ["*", "**", "_", "~~", "~", "a", " ", "[", "](x)", "*a", "**a", " a", "~~a"]
 
 
 def emph_docs(k: int):
